@@ -262,6 +262,32 @@ class Gen:
         return r.choice(["", " ", ":", ": ", ":x", ":a!b@c", ":a!b@c ", "\r\n", "x", "ä", "PRIVMSG", " PRIVMSG x :y", "privmsg #a :lower", ":pfx PRIVMSG #a :with prefix",
                          "JOIN  #a", "JOIN #a ", "TOPIC #a  :x", "NICK :", "USER a b c", "\x00", "FOO bar", "PANIC", "MODE", "JOIN :#a", "KICK #a"])
 
+    def case_nick(self):
+        """a nick change that only changes capitalisation ([]\\ ~ {}|), by a registered session, then probes that
+        look at its member entries"""
+        r = self.rng
+        cands = [sid for sid, x in self.sessions.items() if x.get("registered") and x.get("nick") and not x.get("server")]
+        if not cands:
+            return False
+        sid = r.choice(cands)
+        old = self.sessions[sid]["nick"]
+        tr = str.maketrans("[]\\{}|", "{}|[]\\")
+        new = r.choice([old.swapcase(), old.upper(), old.translate(tr), old.capitalize()])
+        if r.random() < 0.5 and self.joined:
+            self.line(sid, "JOIN " + r.choice(self.joined))
+        self.line(sid, "NICK " + new)
+        self.sessions[sid]["nick"] = new
+        if new not in self.used_nicks:
+            self.used_nicks.append(new)
+        self.count("casenick")
+        others = [x for x in self.sessions if x != sid] or [sid]
+        for _ in range(r.choice([0, 1, 2, 3])):
+            c = self.chan()
+            who, text = r.choice([(r.choice(others), "WHOIS " + new), (sid, "MODE %s +t" % c), (r.choice(others), "NAMES " + c), (sid, "PRIVMSG %s :after rename" % c),
+                                  (r.choice(others), "PRIVMSG %s :to renamed" % new), (sid, "PART " + c), (sid, "TOPIC %s :t" % c)])
+            self.line(who, text)
+        return True
+
     def priv_action(self):
         """a privileged command issued by a session that really holds the privilege"""
         r = self.rng
@@ -387,6 +413,8 @@ class Gen:
             elif x < 0.30 and getattr(self, "links", None):
                 self.client_line(r.choice(self.links))
             elif x < 0.40 and self.priv_action():
+                pass
+            elif x < 0.43 and self.case_nick():
                 pass
             else:
                 self.client_line(r.choice(live))
